@@ -133,6 +133,7 @@ def _liveness(framing, side, snap, per_read, traffic, policy, WARM, backlog_boun
     fed = 0
     i = 0
     raised = 0
+    reset_failed = []
 
     def read(frames):
         nonlocal maxbuf, raised
@@ -141,7 +142,10 @@ def _liveness(framing, side, snap, per_read, traffic, policy, WARM, backlog_boun
         if exc is not None:
             raised += 1
             if policy == 'reset':
-                fr.resetFrame()
+                try:
+                    fr.resetFrame()
+                except Exception as e:   # noqa
+                    reset_failed.append(e)
         maxbuf = max(maxbuf, len(fr._buffer))
     while fed < WARM:
         fs = [same(framing, side) if traffic == 'same' else valid(framing, side, i + k) for k in range(per_read)]
@@ -159,6 +163,8 @@ def _liveness(framing, side, snap, per_read, traffic, policy, WARM, backlog_boun
             expect.extend(_VC[ek])
         read(fs)
     tail = got[n0:]
+    if reset_failed:
+        return 'reset-raises', 'resetFrame() itself raised %r with %d bytes buffered' % (reset_failed[0], len(fr._buffer))
     if backlog_bound and maxbuf >= WARM + one + 16:
         return 'backlog-unbounded', 'backlog reached %d bytes' % maxbuf
     missing = [e for e in expect if tail.count(e) == 0]
